@@ -54,6 +54,10 @@ checks = {
  "C03": dict(cat="exploration", tech="reference-model monitor around the real Setup/Prove/Verify in child processes (crash / hang observed): satisfying assignments from the reference interpreter must prove and verify under consistently set option sets; violating ones must make Prove return an error; C06 solution re-validation on",
    text="3 (quick) / 7 (thorough) curves x {Groth16, PLONK}: random API programs (incl. no-secret, no-public, all-constant shapes), arithmetic circuits with 0..5 commitments (public-only, secret-only, mixed, over earlier commitments), lookup/range-check/hint scenarios (thorough), option sets {default, SHA-256, Keccak, SHA3 challenges, statistical ZK, solver task counts}. Observed executions only.",
    note="a curve's own MiMC is not a valid challenge hash for its proofs (it only accepts canonical scalar-field blocks; G1 coordinates do not fit) and is not used; PLONK Setup's documented refusal of systems below 2 rows is not a violation; unsafekzg SRS", ref="§3 C03"),
+
+ "C20": dict(cat="exploration", tech="randomness tap on crypto/rand.Reader + differential replay: draw accounting, zero-stream (unblinded) reference proofs, per-draw substitution replay, pairwise distinctness; one child process per curve",
+   text="Per curve and back-end, circuits with 0..2 commitments: every Prove draws at least the number of blinding scalars the scheme needs and never re-uses bytes; every blinded element (Ar,Bs,Krs / LRO,Z; first commitment) of honest proofs differs from the deterministic zero-randomness proof; replaying the recorded stream with one accepted scalar replaced still verifies, changes some element, reaches every blinded element, and some draw changes Z without L,R,O (H without L,R,O,Z under statistical ZK); 4-8 proofs of one witness are pairwise distinct in every blinded element.",
+   note="the tap replaces the process-global crypto/rand.Reader; rejection-sampled candidates are recognised by re-implementing the samplers' acceptance rule; quotient-shard randomisers visible only through the replay step", ref="§3 C20"),
 }
 pending = {}
 for i in range(1,21):
